@@ -90,3 +90,48 @@ Definition establish_route_bf (c : conn) : option routes :=
   | Some t => table_to_route (length (c_dev c)) (length (c_sw c)) t
   | None => None
   end.
+
+(** * 3. An abstract network of bounded FIFO channels
+
+    A channel stands for any of the buffers a flit sits in on its way (endpoint
+    flit buffer, port buffers, receive pipeline, route / forward / send-out
+    buffers): a FIFO of capacity [cap c >= 1].  [next c d] is the channel the head
+    packet of [c] moves to when its destination is [d] ([None] = it is handed to
+    the device, which always accepts: devices keep draining).  Which channel
+    moves next is chosen by an arbitrary arbitration oracle (a list of channel
+    numbers); a move whose target is full, or from an empty channel, is
+    disabled. *)
+Definition pkt := (N * nat)%type.               (* message/flit id, destination *)
+
+Record net := mk_net { n_chan : list (list pkt); n_done : list pkt }.
+
+Section Net.
+  Variable next : nat -> nat -> option nat.
+  Variable cap : nat -> nat.
+
+  Definition room (st : net) (c : nat) : bool := length (nth c (n_chan st) []) <? cap c.
+
+  Definition move (st : net) (c : nat) : option net :=
+    match nth c (n_chan st) [] with
+    | [] => None
+    | p :: q =>
+        match next c (snd p) with
+        | None => Some (mk_net (upd (n_chan st) c q) (n_done st ++ [p]))
+        | Some c' =>
+            if (c' <? length (n_chan st)) && negb (c' =? c) && room st c'
+            then Some (mk_net (app_at (upd (n_chan st) c q) c' p) (n_done st))
+            else None
+        end
+    end.
+
+  (** a device injects a packet into channel [c] *)
+  Definition inject (st : net) (c : nat) (p : pkt) : option net :=
+    if (c <? length (n_chan st)) && room st c then Some (mk_net (app_at (n_chan st) c p) (n_done st)) else None.
+
+  (** a schedule of enabled moves *)
+  Fixpoint run (st : net) (cs : list nat) : option net :=
+    match cs with
+    | [] => Some st
+    | c :: r => match move st c with Some st' => run st' r | None => None end
+    end.
+End Net.
